@@ -27,7 +27,7 @@ def keep(name, prop, src, needs, ran):
 def run(name, check=None):
     d = os.path.join(VERIF, "seeded", name)
     meta = json.load(open(os.path.join(d, "meta.json")))
-    check = check or meta["property"]
+    check = check or meta.get("detected_by_check") or meta["property"]
     ev = os.path.join(VERIF, "evidence", check + ".json")
     saved = open(ev).read() if os.path.exists(ev) else None
     subprocess.run(["git", "-C", "/repo", "apply", os.path.join(d, "patch.diff")], check=True)
